@@ -717,6 +717,14 @@ def apply_as_grid_ufunc(
                     f"does not appear in argument"
                     f"{arg}"
                 )
+            other_dims_of_axis = [
+                d for d in grid.axes[n].coords.values() if d != ax_pos and d in arg.dims
+            ]
+            if other_dims_of_axis:
+                raise ValueError(
+                    f"Input argument {i} has more than one dimension of axis {n}: "
+                    f"{[ax_pos] + other_dims_of_axis}"
+                )
 
             # TODO also check that dims are the right length for their stated Axis positions on inputs?
 
